@@ -66,32 +66,32 @@ type VerifC33Level struct {
 	Tables []VerifC33Table
 }
 
-// VerifC33Iter is the constructed stack.
-type VerifC33Iter struct {
-	Iter  base.InternalIterator // the *mergingIter
-	Stats base.InternalIteratorStats
-	m     *mergingIter
-	// ItersCreated counts newIters calls (file loads).
-	ItersCreated int
+// VerifC33Stack is a set of levels prepared for iterator construction (level slices and the
+// tableNewIters function are built once per layout).
+type VerifC33Stack struct {
+	comparer *Comparer
+	levels   []VerifC33Level
+	slices   []manifest.LevelSlice
+	newIters tableNewIters
 }
 
-// VerifC33NewMergingIter wires levels into a mergingIter the way DB.constructPointIter does:
-// levels[0] is the newest. lower/upper may be nil. snapshot is mergingIter.snapshot (the
-// iterator's read sequence number: entries with seqnum < snapshot are visible).
-func VerifC33NewMergingIter(
-	comparer *Comparer, levels []VerifC33Level, lower, upper []byte, snapshot base.SeqNum,
-) *VerifC33Iter {
-	v := &VerifC33Iter{}
+// VerifC33NewStack prepares levels (levels[0] is the newest).
+func VerifC33NewStack(comparer *Comparer, levels []VerifC33Level) *VerifC33Stack {
+	s := &VerifC33Stack{comparer: comparer, levels: levels, slices: make([]manifest.LevelSlice, len(levels))}
 	readers := map[base.TableNum]*sstable.Reader{}
-	for _, l := range levels {
-		for _, t := range l.Tables {
+	for i, l := range levels {
+		metas := make([]*manifest.TableMetadata, len(l.Tables))
+		for j, t := range l.Tables {
 			readers[t.Meta.TableNum] = t.Reader
+			metas[j] = t.Meta
+		}
+		if l.Mem == nil {
+			s.slices[i] = manifest.NewLevelSliceKeySorted(comparer.Compare, metas)
 		}
 	}
-	newIters := func(
+	s.newIters = func(
 		ctx context.Context, file *manifest.TableMetadata, opts *IterOptions, iio internalIterOpts, kinds iterKinds,
 	) (iterSet, error) {
-		v.ItersCreated++
 		r := readers[file.TableNum]
 		var set iterSet
 		if kinds.Point() {
@@ -121,36 +121,55 @@ func VerifC33NewMergingIter(
 		}
 		return set, nil
 	}
+	return s
+}
 
-	opts := IterOptions{LowerBound: lower, UpperBound: upper}
-	mlevels := make([]mergingIterLevel, len(levels))
-	for i, l := range levels {
+// VerifC33MaxLevels bounds the number of levels of a stack.
+const VerifC33MaxLevels = 3
+
+// VerifC33Iter is the constructed iterator stack. The structs live inline (like DB's iterAlloc)
+// so that a harness can reuse the memory: NewIter zeroes the whole value before wiring it.
+type VerifC33Iter struct {
+	Iter    base.InternalIterator // the *mergingIter
+	Stats   base.InternalIteratorStats
+	opts    IterOptions
+	m       mergingIter
+	lis     [VerifC33MaxLevels]levelIter
+	mlevels [VerifC33MaxLevels]mergingIterLevel
+}
+
+// NewIter wires the levels into a mergingIter the way DB.constructPointIter does. lower/upper may
+// be nil. snapshot is mergingIter.snapshot (the iterator's read sequence number: entries with
+// seqnum < snapshot are visible). If reuse is non-nil its memory is zeroed and reused (it must
+// have been closed).
+func (s *VerifC33Stack) NewIter(reuse *VerifC33Iter, lower, upper []byte, snapshot base.SeqNum) *VerifC33Iter {
+	v := reuse
+	if v == nil {
+		v = &VerifC33Iter{}
+	} else {
+		*v = VerifC33Iter{}
+	}
+	v.opts = IterOptions{LowerBound: lower, UpperBound: upper}
+	n := len(s.levels)
+	for i, l := range s.levels {
 		if l.Mem != nil {
-			mlevels[i] = mergingIterLevel{
-				iter:         l.Mem.m.newIter(&opts),
-				rangeDelIter: l.Mem.m.newRangeDelIter(&opts),
+			v.mlevels[i] = mergingIterLevel{
+				iter:         l.Mem.m.newIter(&v.opts),
+				rangeDelIter: l.Mem.m.newRangeDelIter(&v.opts),
 			}
 			continue
 		}
-		metas := make([]*manifest.TableMetadata, len(l.Tables))
-		for j := range l.Tables {
-			metas[j] = l.Tables[j].Meta
-		}
-		slice := manifest.NewLevelSliceKeySorted(comparer.Compare, metas)
-		li := &levelIter{}
-		li.init(context.Background(), opts, comparer, newIters, slice.Iter(), manifest.Level(i+1), internalIterOpts{})
-		li.initRangeDel(&mlevels[i])
-		mlevels[i].levelIter = li
-		mlevels[i].iter = li
+		li := &v.lis[i]
+		li.init(context.Background(), v.opts, s.comparer, s.newIters, s.slices[i].Iter(), manifest.Level(i+1), internalIterOpts{})
+		li.initRangeDel(&v.mlevels[i])
+		v.mlevels[i].levelIter = li
+		v.mlevels[i].iter = li
 	}
-	m := &mergingIter{}
-	m.init(&opts, &v.Stats, comparer.Compare, comparer.Split, mlevels...)
-	m.snapshot = snapshot
-	v.m = m
-	v.Iter = m
+	v.m.init(&v.opts, &v.Stats, s.comparer.Compare, s.comparer.Split, v.mlevels[:n]...)
+	v.m.snapshot = snapshot
+	v.Iter = &v.m
 	return v
 }
 
 // Close forwards to mergingIter.Close.
 func (v *VerifC33Iter) Close() error { return v.m.Close() }
-
